@@ -62,11 +62,11 @@ def generate(tier, rng):
     cfg = write_cfg("Gen_StreamSeek.cfg", "SPECIFICATION Spec\nCONSTANTS\n  Xs = {8, 40, 72}\n  D = 26\n  MaxW = 3\nCONSTRAINT Bound\nINVARIANT Dump\nCHECK_DEADLOCK FALSE\n")
     for b in tlc_generate("Gen_StreamSeek.tla", cfg, "sim", num=40 if tier == "quick" else 1500, depth=27, timeout=900, tag="c07g"):
         scen.append({"mode": "handles", "scene": "T", "ring": 48, "len": 250, "src": "tlc-sim-stream-seek", "steps": b + [{"act": "Callback"}] * 16})
-    # known finding D27: a seek written after the decoder thread has decoded the whole stream (and ended) is never applied -
+    # (defect D27, repaired) a seek written after the decoder thread has decoded the whole stream must still be applied -
     # at once for a stream shorter than the ring, during the last ring-full of frames otherwise
-    scen.append({"mode": "handles", "scene": "T", "ring": 48, "len": 30, "src": "known-D27-seek-after-decoding-ended",
+    scen.append({"mode": "handles", "scene": "T", "ring": 48, "len": 30, "src": "late-seek-after-decoding-ended",
                  "steps": [{"act": "Callback"}, {"act": "W", "key": "st.seek", "v": {"k": "abs", "x": 2}}] + [{"act": "Callback"}] * 10})
-    scen.append({"mode": "handles", "scene": "T", "ring": 48, "len": 200, "src": "known-D27-seek-after-decoding-ended",
+    scen.append({"mode": "handles", "scene": "T", "ring": 48, "len": 200, "src": "late-seek-after-decoding-ended",
                  "steps": [{"act": "Callback"}] * 40 + [{"act": "W", "key": "st.seek", "v": {"k": "abs", "x": 8}}] + [{"act": "Callback"}] * 16})
     # seeks (jump key): seeded random, one kind per window, positions kept inside the sound
     for k in range(60 if tier == "quick" else 2000):
